@@ -4,7 +4,7 @@
    (well-formed raw paths, valid task list) are evaluated on every path and tree the
    implementation produces during the correspondence runs (monitored premises, DESIGN C01). *)
 From KV Require Import Base Params Sort Weave WeaveProofs WeaveCheck PathProofs AssemblyProofs Api RunIntegrityProofs.
-From KV Require Pipeline CladeTasks TreeSchedule.
+From KV Require Pipeline CladeTasks TreeSchedule TreeAssembly.
 Local Open Scope nat_scope.
 
 (* make_linear_sequence: deleting the gap characters of the row built from any gap vector gives
@@ -114,6 +114,41 @@ Theorem C01_schedule_is_complete : forall t n,
                           (CladeTasks.leaves t ++ map TreeSchedule.tc L).
 Proof. exact TreeSchedule.tree_schedule_is_complete. Qed.
 Print Assumptions C01_schedule_is_complete.
+
+(* The same in the vocabulary of C01_assembly_integrity: along the schedule of ANY guide tree every task finds its two
+   operands in the list of active groups (act_after, as in valid_run), distinct, and its result label not active. *)
+Theorem C01_guide_tree_schedule_is_valid : forall t n,
+  NoDup (CladeTasks.leaves t) -> (forall i, In i (CladeTasks.leaves t) -> i < n) ->
+  TreeSchedule.sched_ok (seq 0 n) (Pipeline.sort_tasks (Pipeline.tasks_of (fst (Pipeline.label t n)))).
+Proof. exact TreeSchedule.tree_schedule_ok. Qed.
+Print Assumptions C01_guide_tree_schedule_is_valid.
+
+(* C01_assembly_integrity with its structural premise discharged: for EVERY guide tree over the input sequences, run
+   in kalign's serial order, and every family of edit operations that fit the groups they join (fits_runb: the part of
+   valid_runb that speaks about the operations; monitored on every observed merge), every row keeps exactly its residues,
+   all rows have one length and no column consists of gaps only - and exactly one group, the root, is left. *)
+Theorem C01_assembly_integrity_for_every_guide_tree : forall seqs,
+  Forall (Forall (fun c => c <> dash)) seqs ->
+  forall t, NoDup (CladeTasks.leaves t) -> (forall i, In i (CladeTasks.leaves t) <-> i < length seqs) ->
+  forall tasks,
+  map TreeAssembly.strip tasks = Pipeline.sort_tasks (Pipeline.tasks_of (fst (Pipeline.label t (length seqs)))) ->
+  TreeAssembly.fits_runb seqs (st0 seqs) tasks = true ->
+  let final := run_from (st0 seqs) tasks in
+  (forall i, i < length seqs -> degap (row_of seqs final i) = nth i seqs []) /\
+  exists w, (forall i, i < length seqs -> length (row_of seqs final i) = w) /\
+            (forall j, j < w -> exists i, i < length seqs /\ nth j (row_of seqs final i) dash <> dash).
+Proof. exact TreeAssembly.assembly_integrity_any_tree. Qed.
+Print Assumptions C01_assembly_integrity_for_every_guide_tree.
+
+(* non-vacuity: the observed run of Properties_C10 (tree ((0,1),2), labels 3 and 4) meets the premises *)
+Example C01_every_guide_tree_nonvacuous :
+  let seqs := [[67;71;84;65;67;71;84;84;71;65;67;67;65;71;71]; [65;67;71;84;65;67;71;84;84;71;65;67;67;65];
+               [65;67;71;84;67;71;84;84;84;71;65;67;65]]%Z in
+  let tasks := [(0, 1, 3, [33;0;0;0;0;0;0;0;0;0;0;0;0;2;2;0]%Z); (3, 2, 4, [0;0;0;0;0;0;0;0;0;0;0;0;2;2;2;0]%Z)] in
+  let t := Pipeline.UNode (Pipeline.UNode (Pipeline.ULeaf 0) (Pipeline.ULeaf 1)) (Pipeline.ULeaf 2) in
+  map TreeAssembly.strip tasks = Pipeline.sort_tasks (Pipeline.tasks_of (fst (Pipeline.label t 3))) /\
+  TreeAssembly.fits_runb seqs (st0 seqs) tasks = true /\ CladeTasks.leaves t = [0; 1; 2].
+Proof. vm_compute. repeat split; reflexivity. Qed.
 
 Example C01_schedule_nonvacuous :
   let t := Pipeline.UNode (Pipeline.UNode (Pipeline.ULeaf 3) (Pipeline.ULeaf 0)) (Pipeline.UNode (Pipeline.ULeaf 2) (Pipeline.UNode (Pipeline.ULeaf 1) (Pipeline.ULeaf 4))) in
